@@ -19,7 +19,7 @@ PROP = "C11"
 CHUNK = 6
 
 SIZES = [1, 39, 255, 256, 2294, 2295, 4600, 65535]
-ORIGINS = [None, 0, 0x10, 0x0E00, 0xFFF0]
+ORIGINS = [None, 0, 0x10, 0x0E00, 0xFFF0, 0x553C, 0x3C55]      # the last two spell the tape's block marker $55 $3C
 NAMS = [None, "P", "HELLO", "EIGHTCHR", "NINECHARS", "TWELVECHARS1", "hello", "MixEd", "lower678", "a"]
 CLINAMES = [None, "CLINAME", "cli"]
 ENDS = ["none", "bare", "start", "mid"]
